@@ -36,7 +36,7 @@ ASSUMPTIONS = ['glue is its own reference for the full array (view consistency i
                'generator guards exclude the (attribute kind, view kind) pairs of the open findings', 'sampling, not proof']
 PROBES = ['value_view', 'mask_view', 'indexed_values', 'indexed_mask', 'indexed_stat', 'indexed_hist', 'indexed_after_index_change',
           'indexed_after_parent_update', 'view_after_other_view_read', 'world_attr_view', 'categorical_view', 'linked_attr_view', 'derived_attr_view',
-          'boolmask_view', 'intarray_view', 'short_tuple_view', 'member_state_compared']
+          'boolmask_view', 'intarray_view', 'short_tuple_view', 'member_state_compared', 'pixel_axes_linked_permuted', 'indexed_with_selection']
 
 KINDS = ['ineq', 'range', 'mrange', 'roi', 'mask', 'slice', 'elem', 'catroi', 'cat', 'empty']
 VIEWKINDS = ['none', 'ellipsis', 'slices', 'short', 'mixed', 'intarrays', 'bool']
@@ -106,13 +106,21 @@ def generate(rng, cfg, guards):
     r8 = lambda: rng.randrange(8)
     ops = []
     nd = rng.randrange(1, 4)
+    # a quarter of the multi-dataset runs: two images / cubes whose pixel axes are linked one to one in a permuted order, and a
+    # region drawn on two pixel axes of the first
+    cubes = nd > 1 and rng.chance(0.25)
+    cshape = rng.pick([3, 4, 5, 6, 7, 10])
     for i in range(nd):
-        ops.append(['new', rng.randrange(len(W.SHAPES)), rng.randrange(1, 3), rng.randrange(10000), rng.chance(0.6), rng.pick([0, 1, 2]),
-                    rng.chance(0.5)])
+        ops.append(['new', cshape if cubes and i < 2 else rng.randrange(len(W.SHAPES)), rng.randrange(1, 3), rng.randrange(10000), rng.chance(0.6),
+                    rng.pick([0, 1, 2]), rng.chance(0.5)])
         ops.append(['append', i])
         if rng.chance(0.5):
             ops.append(['add_derived', i, r8(), rng.pick(['mul2', 'add3', 'neg'])])
-    if nd > 1 and rng.chance(0.7):
+    if cubes:
+        ops.append(['link_pixels', 0, 1, rng.randrange(1000)])
+        ops.append(['new_group', ['roipix', 0, r8(), r8(), rng.pick(['rect', 'circle', 'poly']),
+                                  [rng.randrange(-1, 3) + 0.5, rng.randrange(-1, 3) + 0.5, rng.randrange(1, 4), rng.randrange(1, 4)]]])
+    elif nd > 1 and rng.chance(0.7):
         ops.append(['add_link', 0, r8(), 1, r8(), rng.pick(sorted(LF.ONE))])
     for _ in range(rng.randrange(1, 3)):
         ops.append(['new_group', W.gen_recipe(rng, 2, KINDS)])
@@ -134,9 +142,15 @@ def generate(rng, cfg, guards):
             ops.append([k, r8(), [rng.pick([None, None, 0, 1, 2, 3]) for _ in range(3)]])
         elif k == 'indexed_set':
             ops.append([k, r8(), [rng.randrange(0, 4) for _ in range(3)]])
+            if rng.chance(0.4):
+                # the same request before and after the indices change (same dataset, attribute, selection object)
+                what = rng.pick(['hist', 'hist', 'stat', 'mask'])
+                req = ['cmp_indexed', ops[-1][1], what, r8(), r8(), rng.pick(['minimum', 'maximum', 'sum', 'mean', 'median']), True]
+                ops.insert(len(ops) - 1, req)
+                ops.append(list(req))
         else:
             ops.append([k, r8(), rng.pick(['values', 'mask', 'stat', 'hist']), r8(), r8(),
-                        rng.pick(['minimum', 'maximum', 'sum', 'mean', 'median'])])
+                        rng.pick(['minimum', 'maximum', 'sum', 'mean', 'median']), rng.chance(0.4)])
     return {'knobs': {'guards': list(guards), 'prop': PROP}, 'ops': ops}
 
 
@@ -180,6 +194,23 @@ def dep_of(d, cid, seen=None):
         if RANK[x] > RANK[best]:
             best = x
     return best
+
+
+def selection_on_parent(w, par, sl, op, res):
+    """For statistics / histograms of an IndexedData restricted to a selection: (the group's state object - the same one every
+    time -, its mask on the parent cut to the indexed slice), 'skip' if the parent cannot evaluate it, None if not asked for."""
+    from glue.core.exceptions import IncompatibleAttribute
+    if not (len(op) > 6 and op[6]):
+        return None
+    g = w.pick_group(op[4])
+    if g is None:
+        return None
+    try:
+        m = np.asarray(par.get_mask(g.subset_state), dtype=bool)
+    except (IncompatibleAttribute, IndexError, ValueError):
+        return 'skip'
+    res.probe('indexed_with_selection')
+    return g.subset_state, np.broadcast_to(m, par.shape)[sl]
 
 
 def attrs_of(st, out):
@@ -274,6 +305,13 @@ def execute(case, res):
             if d1 is not None and d1 is not d2:
                 fw, bw = LF.ONE[op[5]]
                 dc.add_link(ComponentLink([w.pick_cid(d1, op[2], True)], w.pick_cid(d2, op[4], True), using=fw, inverse=bw))
+        elif k == 'link_pixels':
+            d1, d2 = w.pick_data(op[1]), w.pick_data(op[2])
+            if d1 is not None and d2 is not None and d1 is not d2 and d1.ndim == d2.ndim:
+                perm = list(np.random.RandomState(op[3]).permutation(d1.ndim))
+                for i, j in enumerate(perm):
+                    dc.add_link(ComponentLink([d1.pixel_component_ids[i]], d2.pixel_component_ids[int(j)]))
+                res.probe('pixel_axes_linked_permuted')
         elif k == 'new_group':
             dc.new_subset_group(subset_state=w.build_state(op[1]))
         elif k == 'set_state':
@@ -442,10 +480,22 @@ def execute(case, res):
                 if x.get_kind(mains[j]) != 'numerical':
                     continue
                 vals = np.asarray(par.get_data(pm[j]), dtype=float)[sl]
+                kw = {}
+                sel = selection_on_parent(w, par, sl, op, res)
+                if sel is not None:
+                    if isinstance(sel, str):
+                        continue
+                    vals = vals[sel[1]]
+                    kw['subset_state'] = sel[0]
                 fin = vals[np.isfinite(vals)]
                 f = {'minimum': np.min, 'maximum': np.max, 'sum': np.sum, 'mean': np.mean, 'median': np.median}[op[5]]
                 exp = float(f(fin)) if fin.size else float('nan')
-                got = float(x.compute_statistic(op[5], mains[j]))
+                try:
+                    got = float(x.compute_statistic(op[5], mains[j], **kw))
+                except (IncompatibleAttribute, IndexError, ValueError):
+                    if kw:
+                        continue        # what the parent can evaluate under a view is C04's other subject (open findings)
+                    raise
                 res.nchecks += 1
                 res.probe('indexed_stat')
                 res.fp('istat', op[5], par.ndim)
@@ -455,13 +505,26 @@ def execute(case, res):
                 if x.get_kind(mains[j]) != 'numerical':
                     continue
                 vals = np.asarray(par.get_data(pm[j]), dtype=float)[sl]
+                kw = {}
+                sel = selection_on_parent(w, par, sl, op, res)
+                if sel is not None:
+                    if isinstance(sel, str):
+                        continue
+                    vals = vals[sel[1]]
+                    kw['subset_state'] = sel[0]
                 from glue.core.data import Data
-                manual = Data(x=vals)
-                exp = np.asarray(manual.compute_histogram([manual.id['x']], range=[(-5, 13)], bins=[6])).astype(int)
+                manual = Data(x=np.asarray(vals).ravel())
+                exp = np.asarray(manual.compute_histogram([manual.id['x']], range=[(-5, 13)], bins=[6])).astype(int) if manual.size else np.zeros(6, dtype=int)
                 try:
-                    got = np.asarray(x.compute_histogram([mains[j]], range=[(-5, 13)], bins=[6]))
+                    got = np.asarray(x.compute_histogram([mains[j]], range=[(-5, 13)], bins=[6], **kw))
                 except IncompatibleAttribute as e:
+                    if kw:
+                        continue
                     raise Violation('C04/indexed-histogram-raises', 'indices %s: IncompatibleAttribute %s' % (x.indices, e))
+                except (IndexError, ValueError):
+                    if kw:
+                        continue
+                    raise
                 res.nchecks += 1
                 res.probe('indexed_hist')
                 res.fp('ihist', par.ndim)
